@@ -13,6 +13,7 @@
 -/
 import Y0.Lemmas.LatentOfMG
 import Y0.Lemmas.LatentSimplify
+import Y0.Lemmas.LatentEvans
 
 namespace Y0.LV
 open MG
@@ -125,9 +126,64 @@ theorem verdict_invariant {β : Type} (f : MG Nat → β) (hf : ∀ G H : MG Nat
   obtain ⟨G, hG, hp'⟩ := simplify_projection prime hp D hw ha r h
   exact ⟨G, hG, hf G G0 (hp'.equiv hG0)⟩
 
-/-- a fully simplified LV-DAG is a fixed point: nothing is reported, nothing changes -/
-theorem simplified_fixed (prime : Nat → Nat) (D : LV) (hw : D.WF) (hs : D.Simplified) (ls : List Nat)
-    (hls : D.iterLatents = .ok ls) : D.simplify prime = .ok ⟨D, [], [], []⟩ :=
-  simplify_fixed prime D hw hs ls hls
+/-- **Totality.** On a well-formed acyclic LV-DAG `simplify_latent_dag` never raises (this includes:
+the model of `nx.topological_sort` succeeds on every acyclic graph, proved in Lemmas/LatentKahn.lean). -/
+theorem simplify_total (prime : Nat → Nat) (hp : ∀ n, n < prime n) (D : LV) (hw : D.WF) (ha : D.Acyclic) :
+    ∃ r, D.simplify prime = .ok r :=
+  simplify_total' prime hp D hw ha
+
+/-- **Idempotence.** Simplifying the result again succeeds, returns the same graph (not merely an equal
+one: the same node, edge and tag lists) and reports nothing removed. -/
+theorem simplify_idem (prime : Nat → Nat) (hp : ∀ n, n < prime n) (D : LV) (hw : D.WF) (ha : D.Acyclic)
+    (r : SimplifyResults) (h : D.simplify prime = .ok r) :
+    r.graph.simplify prime = .ok ⟨r.graph, [], [], []⟩ := by
+  obtain ⟨w, a, s, _⟩ := simplify_spec prime hp D hw ha r h
+  obtain ⟨ls, hls⟩ := iterLatents_total r.graph w a
+  exact simplify_fixed prime r.graph w s ls hls
+
+/-! ## 3. `evans_simplify` (ADMG → LV-DAG, mark extra latents, simplify, read back) -/
+
+/-- `evans_simplify(G, latents=extra)` never raises on an acyclic mixed graph and returns the latent
+projection of the LV-DAG of `G` with the extra nodes marked latent -/
+theorem evans_projection (fresh prime : Nat → Nat) (hinj : Function.Injective fresh) (hp : ∀ n, n < prime n)
+    (G : MG Nat) (hG : G.WF) (ha : G.Acyclic) (extra : List Nat) :
+    ∃ H, evansSimplify fresh prime G extra = .ok H ∧
+      IsProjection ((ofMG fresh G).markLatent extra) H := by
+  have hw := wf_markLatent _ extra (toLV_wf_flat fresh hinj G hG).1
+  have hac : ((ofMG fresh G).markLatent extra).Acyclic := ofMG_acyclic fresh hinj G hG ha
+  obtain ⟨r, hr⟩ := simplify_total prime hp _ hw hac
+  obtain ⟨H, hH, hproj⟩ := simplify_projection prime hp _ hw hac r hr
+  refine ⟨H, ?_, hproj⟩
+  unfold evansSimplify
+  simp only [hr, bind, Except.bind]
+  exact hH
+
+/-- without extra latents `evans_simplify` returns a graph equal to its argument -/
+theorem evans_id (fresh prime : Nat → Nat) (hinj : Function.Injective fresh) (hp : ∀ n, n < prime n)
+    (G : MG Nat) (hG : G.WF) (ha : G.Acyclic) (hloop : ∀ e ∈ G.bi, e.1 ≠ e.2) :
+    ∃ H, evansSimplify fresh prime G [] = .ok H ∧ H.equiv G = true := by
+  obtain ⟨H, hH, hproj⟩ := evans_projection fresh prime hinj hp G hG ha []
+  rw [markLatent_nil] at hproj
+  exact ⟨H, hH, hproj.equiv (toLV_is_projection fresh hinj G hG hloop)⟩
+
+/-! ## non-vacuity: an LV-DAG on which every rule fires
+
+nodes 1,2,3,4 observed; latents 10 (middle: parent 1, children 11 and 2), 11 (middle: parent 10,
+children 3 and 4), 12 (exogenous, children 3 and 4: made redundant by the copy of 11... or vice versa),
+13 (one child), 14 → 15 (a widow chain).  `prime n = n + 100`. -/
+def exampleDag : LV :=
+  { nodes := [1, 2, 3, 4, 10, 11, 12, 13, 14, 15],
+    edges := [(1, 10), (10, 11), (10, 2), (11, 3), (11, 4), (12, 3), (12, 4), (13, 2), (14, 15)],
+    latent := [10, 11, 12, 13, 14, 15] }
+
+example :
+    ((exampleDag.simplify (· + 100)).toOption.map
+        (fun r => (r.graph.latent, r.widows, r.unidirectional, r.redundant)))
+      = some ([110], [15, 14], [13], [12, 111]) := by decide
+
+example :
+    ((exampleDag.simplify (· + 100)).toOption.map (fun r => r.graph.toMG?.toOption.map
+        (fun G => (G.nodes, G.di, G.bi)))) =
+      some (some ([1, 2, 3, 4], [(1, 2), (1, 3), (1, 4)], [(2, 3), (2, 4), (3, 4)])) := by decide
 
 end Y0.LV
